@@ -250,6 +250,13 @@ class FieldFamily:
                         yield dict(opt=opt, p=p, d=2, mods=None, seq=[["inv", [0, 1], None, m1], ["inv", [0, 1], None, m2]])
                         yield dict(opt=opt, p=p, d=2, mods=None, seq=[["inv", [0, 0], None, m1], ["intops", [1, 1], 0, m1], ["intops", [0, 1], p, m2],
                                                                       ["intops", [1, 0], 2 * p, m1], ["intops", [1, 1], -1, m2]])
+            # history: a failing mixed-degree operation, then ordinary arithmetic of both degrees
+            for cname, p in list(REAL.items()) + [("small", 7)]:
+                m2 = REAL_MODS[(cname, 2)] if cname != "small" else small2[7][2]
+                m12 = REAL_MODS[(cname, 12)] if cname != "small" else irr12[7][0][:12]
+                x2, y2 = [rng.randrange(1, p), rng.randrange(1, p)], [rng.randrange(1, p), rng.randrange(1, p)]
+                x12 = [rng.randrange(1, p) for _ in range(12)]
+                yield dict(opt=opt, p=p, d=2, mods=m2, seq=[["binops", x2, y2], ["mixed_fail", x2, x12, m2, m12], ["binops", x2, y2], ["binops", y2, x2]])
             # classes derived from a used field class with another modulus
             for p, modlist in small2.items():
                 if len(modlist) > 1:
@@ -280,6 +287,9 @@ class FieldFamily:
                         for _ in range(2):
                             yield dict(opt=True, p=p, d=d, mods=mods, seq=[["fqcoeffs", [rng.randrange(p) for _ in range(d)], [rng.randrange(1, p) for _ in range(d)]]])
                         yield dict(opt=True, p=p, d=d, mods=mods, seq=[["fqcoeffs", [1] + [0] * (d - 1), [0] * (d - 1) + [1]]])
+                        # zero leading coefficients held as (truthy) FQ objects; the zero element; x / x and 0 / 0
+                        yield dict(opt=True, p=p, d=d, mods=mods, seq=[["fqcoeffs", [0, 1] + [0] * (d - 2), [0] * (d - 1) + [3]]])
+                        yield dict(opt=True, p=p, d=d, mods=mods, seq=[["fqcoeffs", [0] * d, [0] * d], ["fqcoeffs", [0, 2] + [1] * (d - 2), [0, 2] + [1] * (d - 2)]])
             # powers of the constants 0 and 1 (and of sparse elements) with exponents 0, 1, 2
             for p in (3, 7, REAL["bn128"]):
                 for d in (1, 2, 12):
@@ -335,6 +345,17 @@ class FieldFamily:
                                 observed=coeffs(got), expected=want, step=step)
                 return None
             try:
+                if op == "mixed_fail":
+                    # an operation that fails half-way (operands of different extension degrees) must leave nothing behind: the
+                    # following steps of this sequence check ordinary products of the same degree
+                    c12 = field_classes(p, 12, step[4], opt)
+                    for a_, b_ in ((X, c12(list(arg))), (c12(list(arg)), X)):
+                        for f_ in (lambda u, v: u * v, lambda u, v: u + v, lambda u, v: u / v):
+                            try:
+                                f_(a_, b_)
+                            except Exception:
+                                pass
+                    continue
                 if op == "derived":
                     # a field class derived from an already *used* field class, overriding the modulus ("any other modulus they are
                     # instantiated with"): parent first, then the child, then the parent again
@@ -414,8 +435,10 @@ class FieldFamily:
                         if coeffs(got) != want:
                             return dict(why=f"{label} with FQ-object coefficients over GF({p}) differs from the same operation on int coefficients",
                                         observed=coeffs(got), expected=want, step=step)
-                    if (Xf == cls([FQc(c) for c in x])) is not True or int(Xf.sgn0) != rfc_sgn0([c % p for c in x]):
-                        return dict(why="== / sgn0 with FQ-object coefficients", step=step)
+                    if (Xf == cls([FQc(c) for c in x])) is not True or int(Xf.sgn0) != rfc_sgn0([c % p for c in x]) \
+                            or int(Yf.sgn0) != rfc_sgn0([c % p for c in arg]):
+                        return dict(why="== / sgn0 with FQ-object coefficients", step=step,
+                                    observed=[int(Xf.sgn0), int(Yf.sgn0)], expected=[rfc_sgn0([c % p for c in x]), rfc_sgn0([c % p for c in arg])])
                 elif op == "construct":
                     want = [c % p for c in x]
                     if coeffs(X) != want:
